@@ -131,6 +131,23 @@ func (vc *FuncVC) Verify() (err error) {
 		o.Script = vc.sc.Render(len(vc.sc.decls), ax, vc.strAxioms(), tFalse, false)
 		o.Bytes = len(o.Script)
 		vc.obls = append(vc.obls, o)
+		// lemmas: each is proved from the axioms and the lemmas declared before it
+		var before []string
+		for _, a := range vc.axioms {
+			if !a.lemma {
+				before = append(before, a.term)
+			}
+		}
+		for _, a := range vc.axioms {
+			if !a.lemma {
+				continue
+			}
+			lo := &Obligation{Fn: "lemmas", Name: "lemma." + a.name, Kind: "lemma", Desc: "lemma follows from the axioms: " + a.name}
+			lo.Script = vc.sc.Render(len(vc.sc.decls), before, vc.strAxioms(), Term{a.term, SBool}, false)
+			lo.Bytes = len(lo.Script)
+			vc.obls = append(vc.obls, lo)
+			before = append(before, a.term)
+		}
 	}
 	vc.emitCover(st, "cover.pre", "precondition and axioms are satisfiable", fn.Pos())
 	fr.retK = func(st *State, res []Value) { vc.atExit(st, fr, res) }
